@@ -35,7 +35,7 @@ Definition pinned : list string := [
   "config.ActiveFeatures"; "config.FinishedUpdate"; "config.StartUpdate"; "config.RegistrySync";
   "config.CodeOfConductPacket"; "config.CodeOfConductAcceptPacket"; "title.Times";
   "plugin.Message"; "config.KnownPacks"; "packet.ServerLoginSuccess"; "playerinfo.Remove";
-  "packet.HeaderAndFooter"; "title.Text"; "title.Subtitle"; "title.Actionbar"; "packet.ResourcePackRequest"; "packet.TabCompleteResponse"
+  "packet.HeaderAndFooter"; "title.Text"; "title.Subtitle"; "title.Actionbar"; "packet.ResourcePackRequest"; "packet.TabCompleteResponse"; "bossbar.BossBar"
 ].
 
 Definition fragment_names : list string := map entry_name (filter is_fragment packets).
